@@ -251,6 +251,7 @@ func ruleElectionSnapshot(c *Ctx) {
 	var defCall *ast.CallExpr
 	fields := map[string]string{}
 	var csVar types.Object
+	var latestExpr ast.Expr
 	ast.Inspect(fi.Decl.Body, func(n ast.Node) bool {
 		as, ok := n.(*ast.AssignStmt)
 		if !ok {
@@ -282,6 +283,17 @@ func ruleElectionSnapshot(c *Ctx) {
 			if call, ok := ast.Unparen(as.Rhs[0]).(*ast.CallExpr); ok && isMethod(calleeObj(info, call), modPath+"/server", "Server", "getClientState") && len(call.Args) == 1 && objOfIdent(info, call.Args[0]) == cid {
 				csVar = objOfIdent(info, as.Lhs[0])
 			}
+			// the same lookup written out in place: cs, ok := s.cs[cid]
+			if ie, ok := ast.Unparen(as.Rhs[0]).(*ast.IndexExpr); ok && objOfIdent(info, ie.Index) == cid && cid != nil {
+				if se, ok := ast.Unparen(ie.X).(*ast.SelectorExpr); ok && se.Sel.Name == "cs" && isNamed(info.TypeOf(se.X), modPath+"/server", "Server") {
+					csVar = objOfIdent(info, as.Lhs[0])
+				}
+			}
+		}
+		for i, l := range as.Lhs {
+			if o, path := selectorPath(info, l); o == snap && snap != nil && len(path) == 1 && path[0] == "clientLatest" && len(as.Lhs) == len(as.Rhs) {
+				latestExpr = as.Rhs[i]
+			}
 		}
 		return true
 	})
@@ -299,7 +311,7 @@ func ruleElectionSnapshot(c *Ctx) {
 		bad = "the session state is not looked up by the session id"
 	case fields["client"] != cid.Name():
 		bad = "snapshot.client is " + fields["client"] + ", expected the session id"
-	case !strings.HasSuffix(fields["clientLatest"], ".lastElecID") || !strings.Contains(fields["clientLatest"], "getClientState("+cid.Name()+")"):
+	case !latestIsSessions(info, latestExpr, csVar):
 		bad = "snapshot.clientLatest is " + fields["clientLatest"] + ", expected the session's last announced election id"
 	}
 	c.Sites += nCalls
@@ -429,4 +441,13 @@ func ruleStoreClientElectionID(c *Ctx) {
 		}
 	}
 	c.check(bad == "" && nStore >= 1, rule, fi.Name, "the announced id becomes the session's latest id, unconditionally", c.P.pos(fi.Decl.Pos()), fmt.Sprintf("%d paths", len(paths)), bad)
+}
+
+// latestIsSessions: the expression is <session state>.lastElecID (or its getter) of the looked-up session.
+func latestIsSessions(info *types.Info, e ast.Expr, csVar types.Object) bool {
+	if e == nil || csVar == nil {
+		return false
+	}
+	o, p := selectorPath(info, e)
+	return o == csVar && len(p) == 1 && (p[0] == "lastElecID" || p[0] == "LastElecID")
 }
